@@ -4,6 +4,8 @@ CONSTANTS NConns = 3
   Recover = FALSE
   RetryTemp = TRUE
   SequencedBad = TRUE
+  TLS = FALSE
+  HsInServe = TRUE
 INIT Init
 NEXT Next
 INVARIANTS HealthyServed
